@@ -27,24 +27,31 @@ Applies(rel, est, opt) ==
                               \/ est \in {"ITML", "LSML", "MMC"} /\ opt \in {"identity", "covariance"}
     [] OTHER -> FALSE
 
-(* equal up to rounding: the two fits run the same arithmetic on inputs that differ in the last bits; *)
-(* iterative learners are run with few iterations.  2^-15 relative + 2^-30 of the largest distance.   *)
-SameDistances(a, b) ==
+(* equal up to rounding: the two fits run the same arithmetic on inputs that differ in the last bits.  Closed-form and   *)
+(* gradient learners: 2^-15 relative (+ 2^-30 of the largest distance).  Learners that stop on a tolerance amplify the     *)
+(* last-bit differences up to that tolerance: the cyclic-projection / projected-gradient solvers (ITML, LSML, MMC) 2^-10,  *)
+(* SDML (scikit-learn's graphical lasso stops at a dual gap of 1e-4) 2^-5.  A broken invariance is O(10%) and more.        *)
+RelTol(est) == IF est \in {"SDML", "SDML_Supervised"} THEN <<1, -1, <<1024>>>>
+               ELSE IF est \in {"ITML", "ITML_Supervised", "LSML", "LSML_Supervised", "MMC", "MMC_Supervised"} THEN <<1, -1, <<32>>>>
+               ELSE <<1, -1, <<1>>>>
+CloseRel(a, b, est, scale) == Leq(Abs(Sub(a, b)), Add(Mul(Max(Abs(a), Abs(b)), RelTol(est)), Shift(scale, -2)))
+SameDistancesE(a, b, est) ==
   /\ Len(a) = Len(b) /\ Len(a) > 0 /\ AllFinV(a) /\ AllFinV(b)
-  /\ \A i \in 1..Len(a) : Approx(a[i], b[i], 1, 2, MaxAbsV(a))
+  /\ \A i \in 1..Len(a) : CloseRel(a[i], b[i], est, MaxAbsV(a))
 
 Step(ev) ==
   IF ~Applies(ev.rel, ev.est, ev.opt) THEN R({}, {"C19.not_listed_for_this_estimator"})
   ELSE IF ev.exc # "" THEN R({"C19.fit_returns"}, {})
   ELSE LET c == "C19." \o ev.rel IN
     CASE ev.rel \in {"translation", "swap", "permutation"} ->
-           R(IF SameDistances(ev.d0, ev.d1) THEN {} ELSE {c}, {c})
+           R(IF SameDistancesE(ev.d0, ev.d1, ev.est) THEN {} ELSE {c}, {c})
       [] ev.rel = "scaling" ->
-           R(IF SameDistances(ev.d0, [i \in 1..Len(ev.d1) |-> Mul(ev.d1[i], ev.c)]) THEN {} ELSE {c}, {c})
+           R(IF SameDistancesE(ev.d0, [i \in 1..Len(ev.d1) |-> Mul(ev.d1[i], ev.c)], ev.est) THEN {} ELSE {c}, {c})
       [] ev.rel = "orthogonal" ->
-           R((IF SameDistances(ev.d0, ev.d1) THEN {} ELSE {c})
+           R((IF SameDistancesE(ev.d0, ev.d1, ev.est) THEN {} ELSE {c})
              \cup (IF GE!IsOrthogonal(ev.Q, One) /\ AllFinM(ev.M0) /\ AllFinM(ev.M1)
-                      /\ ApproxM(ev.M1, GE!Conjugate(ev.M0, ev.Q), 1, 2, MaxAbsM(ev.M0))
+                      /\ LET C == GE!Conjugate(ev.M0, ev.Q) IN
+                           \A i \in 1..Len(C) : \A j \in 1..Len(C) : Leq(Abs(Sub(ev.M1[i][j], C[i][j])), Add(Mul(MaxAbsM(ev.M0), RelTol(ev.est)), Shift(MaxAbsM(ev.M0), -2)))
                    THEN {} ELSE {"C19.orthogonal_conjugates_M"}),
              {c, "C19.orthogonal_conjugates_M"})
 
